@@ -190,6 +190,9 @@ def obligations(S):
                 add(f"{p.outcome.kind}", z3.BoolVal(False), {"msg": p.outcome.msg})
                 continue
             s = Spec(ex, p, a, b)
+            o4 = Obl(f"C04:try_{op}:path-ends-in-return", {"C04"}, f"C04:try_{op}:path-ends-in-return#path{pi}", p, z3.BoolVal(True))
+            o4.ex = ex
+            obls.append(o4)
             add("float-result-never-nan", s.never_nan())
             vas, vbs = possible_variants(ex, p, a), possible_variants(ex, p, b)
             for va in vas:
